@@ -463,7 +463,15 @@ def handleCut (opts vars rmap body ks lbs : String) : String × String :=
           | _ => false
         match parseDump pr with
         | none => (pr, if pr = "err" then "err" else (if fmt then "ok\tFMT" else "ok\tF7"))
-        | some pd => (cutRelation pd fd (lbs = "1"), if fmt then "ok\tFMT" else "ok")
+        | some pd =>
+          let rel := cutRelation pd fd (lbs = "1")
+          if lbs = "1" then
+            -- line boundary: exactly the waveform the lines present denote (token interpreter + Spec.run of the prefix);
+            -- `ok:-` = that specification does not apply (malformed prefix, or a C01 finding class F5a / F24)
+            let (sp, fid) := specVcd d vs rm (b.take k)
+            let exact := if sp = "-" || fid != "-" then "-" else sp
+            ((if rel = "ok" then "ok:" ++ pr else rel), (if fmt then "ok\tFMT" else "ok:" ++ exact))
+          else (rel, if fmt then "ok\tFMT" else "ok")
     | _, _ => ("bad-request", "-")
   | _, _, _, _ => ("bad-request", "-")
 
